@@ -138,8 +138,37 @@ func fmtV6(t *rapid.T, a netip.Addr, l string) string {
 }
 
 func genC14Valid(t *rapid.T) c14Spec {
-	kind := rapid.SampledFrom([]string{"single4", "single6", "range4", "range6", "cidr4", "cidr4", "cidr6", "cidr6", "mask4", "mask4"}).Draw(t, "kind")
+	kind := rapid.SampledFrom([]string{"single4", "single6", "range4", "range6", "cidr4", "cidr4", "cidr6", "cidr6", "mask4", "mask4", "cidr6-low"}).Draw(t, "kind")
 	s := c14Spec{Class: kind, Valid: true}
+	if kind == "cidr6-low" {
+		// an IPv6 CIDR whose base lies in ::/16, where the IPv4-mapped (::ffff:a.b.c.d) and compatible forms live,
+		// written in IPv6 notation: an IPv6 block like any other (for prefixes >= 96 a set of mapped IPv4 addresses)
+		var b [16]byte
+		switch rapid.IntRange(0, 2).Draw(t, "low-kind") {
+		case 0:
+			b[10], b[11] = 0xff, 0xff
+		case 1:
+			b[10], b[11] = 0xff, 0xfe
+		}
+		for i := 12; i < 16; i++ {
+			b[i] = rapid.Byte().Draw(t, fmt.Sprintf("low-b%d", i))
+		}
+		a := netip.AddrFrom16(b)
+		p := rapid.SampledFrom([]int{0, 1, 8, 24, 32, 64, 80, 95, 96, 97, 104, 120, 126, 127, 128}).Draw(t, "low-pfx")
+		if rapid.Bool().Draw(t, "low-aligned") {
+			pp, _ := a.Prefix(p)
+			a = pp.Addr()
+		}
+		lo, hi, host := blockBounds(a, p)
+		s.Fam, s.Pfx, s.Host = 6, p, host
+		s.Lo, s.Hi = lo.String(), hi.String()
+		text := a.StringExpanded() // pure hexadecimal groups
+		if rapid.Bool().Draw(t, "low-dotted") && a.Is4In6() {
+			text = "::ffff:" + a.Unmap().String() // the dotted IPv6 spelling of a mapped address
+		}
+		s.Text = fmt.Sprintf("%s/%d", text, p)
+		return s
+	}
 	switch kind {
 	case "single4":
 		a := genV4(t, "a")
@@ -224,7 +253,7 @@ func genC14Valid(t *rapid.T) c14Spec {
 
 func genC14Invalid(t *rapid.T) c14Spec {
 	kind := rapid.SampledFrom([]string{"bad-addr", "bad-addr-in-range", "bad-addr-in-cidr", "noncontig-mask", "prefix-out-of-range", "prefix-empty", "prefix-negative",
-		"reversed", "mixed-family", "v6-with-mask", "range-missing-end", "garbage"}).Draw(t, "kind")
+		"reversed", "mixed-family", "v6-with-mask", "range-missing-end", "garbage", "prefix-signed", "mask-in-v6-notation"}).Draw(t, "kind")
 	s := c14Spec{Class: "invalid:" + kind}
 	a4, a6 := genV4(t, "a4"), genV6(t, "a6")
 	bad4 := rapid.SampledFrom([]string{"192.0.2.", "192.0.2.256", "1.2.3", "1.2.3.4.5", "1..2.3", "a.b.c.d", "", "1.2.3.4 "}).Draw(t, "bad4")
@@ -296,6 +325,18 @@ func genC14Invalid(t *rapid.T) c14Spec {
 		}
 	case "v6-with-mask":
 		s.Text = a6.String() + "/" + net.IP(net.CIDRMask(rapid.IntRange(1, 31).Draw(t, "p"), 32)).String()
+	case "prefix-signed":
+		// a prefix length is a number 0..32 / 0..128, not a signed number: "/-0" must not mean "/0"
+		sign := rapid.SampledFrom([]string{"-0", "-00", "+0", "+24", "+32", "-", "+"}).Draw(t, "sign")
+		s.Text = rapid.SampledFrom([]string{a4.String(), a6.String()}).Draw(t, "pick") + "/" + sign
+	case "mask-in-v6-notation":
+		// the netmask form is "IPv4 with subnet mask": both parts in IPv4 notation
+		m := net.IP(net.CIDRMask(rapid.IntRange(0, 32).Draw(t, "p"), 32)).String()
+		if rapid.Bool().Draw(t, "which") {
+			s.Text = a4.String() + "/::ffff:" + m
+		} else {
+			s.Text = "::ffff:" + a4.String() + "/" + m
+		}
 	case "range-missing-end":
 		s.Text = rapid.SampledFrom([]string{a4.String() + "-", a6.String() + "-"}).Draw(t, "pick")
 	default:
